@@ -177,7 +177,7 @@ def run(chk):
     r1.floor("read methods of Client", len(shapes), 6)
 
     # ---- Client: the handler of the fetch exchange returns the empty mapping
-    fetch = [f for f in exchange.exchange_functions(prog) if f.param("noreply") is None]
+    fetch = [f for f in exchange.reading_exchange_functions(prog) if f.param("noreply") is None]
     if len(fetch) != 1:
         raise AnalysisError("C07: expected exactly one fetch exchange function, found %s" % [f.qualname for f in fetch])
     fetch = fetch[0]
